@@ -132,6 +132,7 @@ class Fn(object):
     self.names = names
     self.bound = set()       # comprehension variables in scope
     self.defined = set(self.params)   # variables definitely assigned at the current statement
+    self.defs = []                    # continuation definitions emitted by top_block
 
   def is_comp_var(self, name):
     for n in ast.walk(self.fdef):
@@ -423,6 +424,21 @@ class Fn(object):
     return acc, False
 
   # ---- statements: term : flow E ----
+  def ety(self):
+    return '(' + ' * '.join(['value'] * len(self.names)) + ')%type'
+
+  def top_block(self, stmts, name, fparams, fargs, idx=0):
+    """Like block, but the statements after each top-level if/try become a named continuation `name_k<i>`
+    (a Definition of its own), so that proofs can speak about the tail of a long function."""
+    if stmts and isinstance(stmts[0], (ast.If, ast.Try)) and stmts[1:]:
+      head = self.block([stmts[0]])
+      kname = '%s_k%d' % (name, idx + 1)
+      kterm = self.top_block(stmts[1:], name, fparams, fargs, idx + 1)
+      self.defs.append('Definition %s%s (env_ : %s) : flow %s :=\n  let %s := env_ in %s.\n' % (
+        kname, fparams, self.ety(), self.ety(), self.envpat(), kterm))
+      return '(fl_seq %s (fun env_ => %s%s env_))' % (head, kname, fargs)
+    return self.block(stmts)
+
   def block(self, stmts):
     return '(' + self.block_(stmts) + ')'
 
@@ -516,6 +532,7 @@ CTYPES = [('TText', 'Text'), ('TBlob', 'Blob'), ('TAny', 'Any'), ('TBool', 'Bool
           ('TRefList t', 'ReferenceList'), ('TAttachments', 'Attachments')]
 FIELDS = {'DateTime': ('timezone',), 'ReferenceList': ('table_id',)}       # self fields the methods of a class may read
 FIELD_PARAM = {'timezone': '(zone : str)', 'table_id': '(table : str)'}
+SPLIT = {'gen_ReferenceList_do_convert'}      # long functions whose top-level tails get names of their own
 
 # glue that is not translated: its AST must be what the dispatch below assumes
 PINNED = {
@@ -564,10 +581,12 @@ def emit_fn(mod, cls, fdef, fields, name, extra_params=''):
     if len(body) != 1 or not isinstance(body[0], ast.Return) or body[0].value is None:
       fail('%s: expected a single return' % name, fdef)
     return 'Definition %s%s : result bool :=\n  %s.\n' % (name, params, fn.cond_r(body[0].value))
-  term = fn.block(body)
+  fparams = ''.join(' ' + FIELD_PARAM[f] for f in fields) + extra_params
+  fargs = ''.join(' ' + FIELD_PARAM[f].split()[0][1:] for f in fields) + (' do_convert_' if extra_params else '')
+  term = fn.top_block(body, name, fparams, fargs) if name in SPLIT else fn.block(body)
   inits = ''.join('let v_%s := PNone in ' % n for n in fn.names if n not in fn.params)
-  ety = '(' + ' * '.join(['value'] * len(fn.names)) + ')%type'
-  return 'Definition %s%s : result value :=\n  %s@run_flow %s (%s).\n' % (name, params, inits, ety, term)
+  return ''.join(d + '\n' for d in fn.defs) + 'Definition %s%s : result value :=\n  %s@run_flow %s (%s).\n' % (
+    name, params, inits, fn.ety(), term)
 
 
 def translate(grist_dir):
